@@ -126,8 +126,10 @@ def run_case(spec, ctx):
             import warnings as _w
             with _w.catch_warnings():
                 _w.simplefilter('ignore')
+                # same solver parameters as the quiet solve (C.solve_formula gives these to Gurobi)
+                kw2 = {'params': {'TimeLimit': 30, 'Threads': 1}} if s0 == 'grb' else {}
                 sol2 = (_lp.def_sol(f, display=True, log=True) if s0 == 'def' else
-                        C.solver(s0).solve(f, display=True, log=True))
+                        C.solver(s0).solve(f, display=True, log=True, **kw2))
             ctx.count('display_log_variants')
             if sol2.x is None or abs(sol2.objval - opt[s0].objval) > 1e-9 * (1 + abs(opt[s0].objval)):
                 detail.append({'what': 'display/log settings change the result', 'solver': s0,
